@@ -63,11 +63,13 @@ theorem rejected_before_work :
       (runEntry Api.placerEntries false f.body).1 = true ∧
       ∀ w ∈ (runEntry Api.placerEntries false f.body).2, w ∈ bookkeeping := by decide
 
+/-- The public placement calls do nothing but take the in-use guard (of either kind: clearing or
+re-entrant — which one is C10's matter) and call the corresponding placer entry point. -/
 theorem entries_translated :
     Api.placerEntries.map (·.name) = ["GlobalPlacer::place", "DetailedPlacer::legalize", "DetailedPlacer::place"] ∧
-    Api.placementCalls.map (·.body) =
-      [[.scopeGuard, .call "GlobalPlacer::place"], [.scopeGuard, .call "DetailedPlacer::legalize"],
-       [.scopeGuard, .call "DetailedPlacer::place"]] := by decide
+    (∀ f ∈ Api.placementCalls, guardedCall f.body = true) ∧
+    Api.placementCalls.map (·.body.drop 1) =
+      [[.call "GlobalPlacer::place"], [.call "DetailedPlacer::legalize"], [.call "DetailedPlacer::place"]] := by decide
 
 /-! ### vector lengths -/
 
